@@ -112,10 +112,11 @@ SITE_FUNCS = [(O + 'StripWhitespaceFilter._stripws_default', None), (O + 'StripW
               (RF + '_process_parenthesis', 'sites'), (RF + '_process_values', 'sites'), (RF + 'process', 'sites'),
               (AF + '_split_kwds', 'sites'), (AF + '_process_parenthesis', 'sites'),
               (O + 'StripWhitespaceFilter.process', 'body')]
-NOT_YET = [RF + '_process_case', RF + '_process_function', RF + '_process_default',
+NOT_YET = [RF + '_process_function', RF + '_process_default',
            AF + '_process_default', O + 'StripWhitespaceFilter._stripws']
 # verified on explicit node shapes only (the syntactic inventory is kept for them as well: it speaks about every path)
-SHAPE_ONLY = [RF + '_process_identifierlist', AF + '_process_identifierlist', AF + '_process_case', AF + '_process_statement']
+SHAPE_ONLY = [RF + '_process_identifierlist', RF + '_process_case', AF + '_process_identifierlist', AF + '_process_case',
+              AF + '_process_statement']
 
 
 def pure_helpers(rep):
@@ -148,7 +149,8 @@ def run(rep):
                      'by an arbitrary element in a havoc-ed state; calls of sibling layout routines are replaced by "may '
                      'restructure the lists of its argument" (each routine is verified under its own contract); site '
                      'obligations are also generated inside helpers executed in place (insert_before / insert_after)',
-                     'AlignedIndentFilter._process_case (CASE shapes with 1-2 WHEN and optional ELSE), '
+                     'AlignedIndentFilter._process_case (CASE shapes with 1-2 WHEN and optional ELSE), ReindentFilter._process_case '
+                     '(1 WHEN + ELSE), '
                      'AlignedIndentFilter._process_identifierlist and ReindentFilter._process_identifierlist (lists of 2 '
                      'items; 3 items in the thorough tier) are verified on explicit shapes of the node (arbitrary item classes '
                      'and texts, arbitrary filter settings): every insertion is a fresh whitespace token, no exception escapes '
